@@ -21,12 +21,18 @@ Variable leb : K -> K -> bool.          (* p <= q on priority values *)
 (* AGen = `return <generator object>`: ends the body of a handler (the rest of the body is dead code);
    the dispatcher registers the generator as a task (event.waitingHandlers += 1), which no observable
    of this property depends on, and then falls through to the same `if event.stopped: break` *)
-Inductive act := AFire (name : nat) (k : K) | AFlush | AStop | AGen.
+(* how an event is fired: plainly; `e.cancel()` right after fire(e) (before any dispatch); `e.stop()` called
+   from outside before the event is dispatched *)
+Inductive mode := MNormal | MCancel | MPreStop.
+(* ARaise fs = the handler raises (rest of its body is dead code); the dispatcher's `except BaseException`
+   clause then fires, in this order, the reserved events fs = [<name>_failure (if event.failure);] exception,
+   with default priority — queued fires like any other — and goes on with the same handler loop *)
+Inductive act := AFire (name : nat) (k : K) (md : mode) | AFlush | AStop | AGen | ARaise (fs : list (nat * K)).
 Record handler := { hid : nat; hprio : K; hbody : list act }.
 Variable hs_of : nat -> list handler.   (* chain(getHandlers(...)) order for an event name *)
 
 (* queue entry (priority, counter, (event, channels)); the counter doubles as the event id *)
-Record item := { ikey : K; ictr : nat; iname : nat }.
+Record item := { ikey : K; ictr : nat; iname : nat; imode : mode }.
 
 Definition eqk (a b : K) : bool := leb a b && leb b a.
 (* Python tuple comparison (p1, c1, _) < (p2, c2, _) *)
@@ -51,6 +57,13 @@ Fixpoint insert_desc (h : handler) (l : list handler) : list handler :=
   end.
 Definition sort_desc (l : list handler) : list handler := fold_right insert_desc [] l.
 
+Definition is_cancel (m : mode) : bool := match m with MCancel => true | _ => false end.
+Definition is_pre (m : mode) : bool := match m with MPreStop => true | _ => false end.
+(* the handlers the dispatcher will loop over for a popped entry: `if event.cancelled: return` comes before
+   the handler lookup, so a cancelled event occupies its slot of the pass and gets the empty list *)
+Definition handlers_for (x : item) : list handler :=
+  if is_cancel (imode x) then [] else sort_desc (hs_of (iname x)).
+
 Inductive frame :=
 | FBody (ctx : option (nat * nat)) (acts : list act)    (* main program (None) or handler body (event id, handler id) *)
 | FLoop                                                   (* inside dispatchEvents, at the head of `while self._flush_batch > 0` *)
@@ -64,6 +77,7 @@ Inductive tr :=
 | TStop (e h : nat)           (* event.stop() in handler h of event e *)
 | TRet (e h : nat)            (* handler returns *)
 | TGen (e h : nat)            (* ... and what it returns is a generator (registered as a task) *)
+| TRaise (e h : nat)          (* handler h of event e raises *)
 | TDone (e : nat)             (* the dispatcher's handler loop for e is over *)
 | TFlushB | TFlushE.          (* flush() called / returns *)
 
@@ -90,9 +104,9 @@ Definition step (s : state) : option state :=
   | [] => None
   | FBody ctx [] :: k =>
       Some (upd s k (match ctx with Some (e, h) => [TRet e h] | None => [] end))
-  | FBody ctx (AFire n p :: acts) :: k =>
+  | FBody ctx (AFire n p md :: acts) :: k =>
       (* _EventQueue.append: counter += 1; queue.append((priority, counter, ...)) *)
-      let x := {| ikey := p; ictr := counter s; iname := n |} in
+      let x := {| ikey := p; ictr := counter s; iname := n; imode := md |} in
       Some {| fifo := fifo s ++ [x]; heap := heap s; counter := S (counter s); batch := batch s;
               stopped := stopped s; stack := FBody ctx acts :: k; trace := trace s ++ [TFire x];
               crashed := crashed s |}
@@ -107,6 +121,11 @@ Definition step (s : state) : option state :=
   | FBody ctx (AGen :: acts) :: k =>
       match ctx with
       | Some (e, h) => Some (upd s (FBody ctx [] :: k) [TGen e h])   (* return: the remaining actions never run *)
+      | None => Some (upd s (FBody ctx acts :: k) [])                 (* not generated for the main program *)
+      end
+  | FBody ctx (ARaise fs :: acts) :: k =>
+      match ctx with
+      | Some (e, h) => Some (upd s (FBody ctx (map (fun f => AFire (fst f) (snd f) MNormal) fs) :: k) [TRaise e h])
       | None => Some (upd s (FBody ctx acts :: k) [])                 (* not generated for the main program *)
       end
   | FBody ctx (AFlush :: acts) :: k =>
@@ -126,11 +145,12 @@ Definition step (s : state) : option state :=
         | Some (m, h') =>
             Some {| fifo := fifo s; heap := h'; counter := counter s; batch := pred (batch s);
                     stopped := stopped s;
-                    stack := FDisp m (sort_desc (hs_of (iname m))) false :: FLoop :: k;
+                    stack := FDisp m (handlers_for m) false :: FLoop :: k;
                     trace := trace s ++ [TDisp m]; crashed := crashed s |}
         end
   | FDisp x rem chk :: k =>
-      if chk && is_stopped (ictr x) (stopped s) then Some (upd s k [TDone (ictr x)])   (* break *)
+      (* `if event.stopped: break` is looked at after a handler returned, never before the first one *)
+      if chk && (is_stopped (ictr x) (stopped s) || is_pre (imode x)) then Some (upd s k [TDone (ictr x)])
       else match rem with
            | [] => Some (upd s k [TDone (ictr x)])
            | h :: rem' =>
@@ -165,12 +185,12 @@ Definition pending_fires (t : list tr) : list item := pf_from [] t.
 
 End Dispatch.
 
-Arguments AFire {K}. Arguments AFlush {K}. Arguments AStop {K}. Arguments AGen {K}.
+Arguments AFire {K}. Arguments AFlush {K}. Arguments AStop {K}. Arguments AGen {K}. Arguments ARaise {K}.
 Arguments Build_handler {K}. Arguments hid {K}. Arguments hprio {K}. Arguments hbody {K}.
-Arguments Build_item {K}. Arguments ikey {K}. Arguments ictr {K}. Arguments iname {K}.
+Arguments Build_item {K}. Arguments ikey {K}. Arguments ictr {K}. Arguments iname {K}. Arguments imode {K}.
 Arguments FBody {K}. Arguments FLoop {K}. Arguments FDisp {K}.
 Arguments TFire {K}. Arguments TSnap {K}. Arguments TDisp {K}. Arguments TInv {K}. Arguments TStop {K}.
-Arguments TRet {K}. Arguments TGen {K}. Arguments TDone {K}. Arguments TFlushB {K}. Arguments TFlushE {K}.
+Arguments TRet {K}. Arguments TGen {K}. Arguments TRaise {K}. Arguments TDone {K}. Arguments TFlushB {K}. Arguments TFlushE {K}.
 Arguments fifo {K}. Arguments heap {K}. Arguments counter {K}. Arguments batch {K}. Arguments stopped {K}.
 Arguments stack {K}. Arguments trace {K}. Arguments crashed {K}.
 Arguments init {K}. Arguments fires {K}. Arguments disps {K}. Arguments invs {K}. Arguments pending_fires {K}.
